@@ -58,6 +58,7 @@ where
     F: Float,
     StandardUniform: Distribution<F>,
 {
+    n: F,
     s: F,
     t: F,
     q: F,
@@ -124,7 +125,7 @@ where
             F::one() + n.ln()
         };
         debug_assert!(t > F::zero());
-        Ok(Zipf { s, t, q })
+        Ok(Zipf { n, s, t, q })
     }
 
     /// Inverse cumulative density function
@@ -152,7 +153,8 @@ where
         let one = F::one();
         loop {
             let inv_b = self.inv_cdf(rng.sample(StandardUniform));
-            let x = (inv_b + one).floor();
+            // `inv_b + one` can round up to `n + 1` when the uniform draw is close to 1
+            let x = (inv_b + one).floor().min(self.n);
             let mut ratio = x.powf(-self.s);
             if x > one {
                 ratio = ratio * inv_b.powf(self.s)
